@@ -56,8 +56,11 @@ pub enum RPath {
     WriteToSlice,
     Display,
     DisplayPrec,
+    DisplayPrec0,
+    DisplayPrec10,
     Debug,
     DebugAlt,
+    DebugPrec,
     Eq,
     IntoVec4,
     Xyz,
@@ -73,7 +76,8 @@ const ALL_WPATHS: &[WPath] = &[
 ];
 const ALL_RPATHS: &[RPath] = &[
     RPath::Fields, RPath::Index, RPath::ToArray, RPath::AsRef, RPath::IntoArray, RPath::IntoTuple, RPath::WriteToSlice, RPath::Display,
-    RPath::DisplayPrec, RPath::Debug, RPath::DebugAlt, RPath::Eq, RPath::IntoVec4, RPath::Xyz, RPath::Test, RPath::Bitmask, RPath::IntoU32Arr,
+    RPath::DisplayPrec, RPath::DisplayPrec0, RPath::DisplayPrec10, RPath::Debug, RPath::DebugAlt, RPath::DebugPrec, RPath::Eq, RPath::IntoVec4,
+    RPath::Xyz, RPath::Test, RPath::Bitmask, RPath::IntoU32Arr,
 ];
 
 fn wpath_from(s: &str) -> WPath {
@@ -169,8 +173,11 @@ macro_rules! common_reads {
             }
             RPath::Display => ReadOut::Text(format!("{}", $self)),
             RPath::DisplayPrec => ReadOut::Text(format!("{:.3}", $self)),
+            RPath::DisplayPrec0 => ReadOut::Text(format!("{:.0}", $self)),
+            RPath::DisplayPrec10 => ReadOut::Text(format!("{:.10}", $self)),
             RPath::Debug => ReadOut::Text(format!("{:?}", $self)),
             RPath::DebugAlt => ReadOut::Text(format!("{:#?}", $self)),
+            RPath::DebugPrec => ReadOut::Text(format!("{:.2?}", $self)),
             _ => ReadOut::Unsupported,
         }
     };
@@ -186,7 +193,8 @@ macro_rules! impl_vec_paths {
             }
             fn rpaths() -> &'static [RPath] {
                 &[RPath::Fields, RPath::Index, RPath::ToArray, RPath::AsRef, RPath::IntoArray, RPath::IntoTuple, RPath::WriteToSlice,
-                  RPath::Display, RPath::DisplayPrec, RPath::Debug, RPath::DebugAlt, RPath::Eq]
+                  RPath::Display, RPath::DisplayPrec, RPath::DisplayPrec0, RPath::DisplayPrec10, RPath::Debug, RPath::DebugAlt,
+                  RPath::DebugPrec, RPath::Eq]
             }
             fn write(&mut self, p: WPath, lane: usize, v: &[$E], off: usize) {
                 match p {
@@ -312,7 +320,8 @@ macro_rules! impl_quat_paths {
             }
             fn rpaths() -> &'static [RPath] {
                 &[RPath::Fields, RPath::ToArray, RPath::AsRef, RPath::IntoArray, RPath::IntoTuple, RPath::IntoVec4, RPath::Xyz,
-                  RPath::WriteToSlice, RPath::Display, RPath::DisplayPrec, RPath::Debug, RPath::DebugAlt, RPath::Eq]
+                  RPath::WriteToSlice, RPath::Display, RPath::DisplayPrec, RPath::DisplayPrec0, RPath::DisplayPrec10, RPath::Debug,
+                  RPath::DebugAlt, RPath::DebugPrec, RPath::Eq]
             }
             fn write(&mut self, p: WPath, lane: usize, v: &[$E], off: usize) {
                 match p {
@@ -594,6 +603,9 @@ fn fmt_elem<E: Scalar>(bits: u64, how: RPath) -> String {
             match how {
                 RPath::Display => format!("{}", v),
                 RPath::DisplayPrec => format!("{:.3}", v),
+                RPath::DisplayPrec0 => format!("{:.0}", v),
+                RPath::DisplayPrec10 => format!("{:.10}", v),
+                RPath::DebugPrec => format!("{:.2?}", v),
                 _ => format!("{:?}", v),
             }
         }};
@@ -633,7 +645,7 @@ fn check_reads<T: Paths>(obj: &T, model: &[u64], last_write: &str, canary: u64) 
     let aux: Vec<T::E> = vec![T::E::from_bits64(canary)];
     let no_fmt = NO_FMT.load(std::sync::atomic::Ordering::Relaxed);
     for &rp in T::rpaths() {
-        if no_fmt && matches!(rp, RPath::Display | RPath::DisplayPrec | RPath::Debug | RPath::DebugAlt) {
+        if no_fmt && matches!(rp, RPath::Display | RPath::DisplayPrec | RPath::DisplayPrec0 | RPath::DisplayPrec10 | RPath::Debug | RPath::DebugAlt | RPath::DebugPrec) {
             continue;
         }
         let out = match util::catch(|| obj.read(rp, &aux)) {
@@ -673,7 +685,7 @@ fn check_reads<T: Paths>(obj: &T, model: &[u64], last_write: &str, canary: u64) 
                 }
             }
             ReadOut::Text(s) => {
-                let is_debug = matches!(rp, RPath::Debug | RPath::DebugAlt);
+                let is_debug = matches!(rp, RPath::Debug | RPath::DebugAlt | RPath::DebugPrec);
                 let got = tokens(&s, is_debug);
                 let want: Vec<String> = model.iter().map(|b| fmt_elem::<T::E>(*b, rp)).collect();
                 let ok = if T::E::KIND == Elem::Bool && is_debug {
